@@ -168,7 +168,7 @@ def _work(scn: dict):
 def scenarios_from_payloads(payloads: list, comps_with_sur: bool, seed: int, all_kinds: bool) -> list[dict]:
     rnd = random.Random(seed)
     out = []
-    combos = list(itertools.product(KINDS, repeat=3))
+    combos = list(itertools.product(KINDS, repeat=4))
     for idx, p in enumerate(payloads):
         req = fn_to_dict(p["req"])
         comps = sorted(req)
@@ -273,7 +273,7 @@ def run(ctx: Ctx) -> int:
     rep.notes["pinned_commit_algorithm_counterexample"] = "TLC: OkIsRight violated for Shortcut=append (self-dependency)"
     cfgs = [("DepSort_abc.cfg", False), ("DepSort_quick.cfg", True)]
     if not ctx.quick:
-        cfgs = [("DepSort_abc_full.cfg", False), ("DepSort_full.cfg", True)]
+        cfgs = [("DepSort_abc_full.cfg", False), ("DepSort_full.cfg", True), ("DepSort_4.cfg", True)]
     scns = []
     for cfg, has_s in cfgs:
         res = ctx.tlc("DepSort.tla", cfg, coverage=False)
